@@ -130,6 +130,15 @@ def check(run, prog):
         ev3 = ck.evaluator()
         out3 = ck.attempt("R3", f_coh.where, "coherent_dedispersion(z, DM, chirp=<arbitrary array>) " + tag, "evaluates",
                           lambda: ev3.call(f_coh, [z, dm], dict(kw, chirp=csym)), ev=ev3, allowed_guards=[])
+        # a chirp prepared on the other back end (a lazily precomputed chirp applied to data in memory, or the reverse) is as good
+        other = "dask" if backend == "numpy" else "numpy"
+        cother = Num(sp.Symbol("C_user"), kind="array", shape=(N, sp.Integer(nchan)), tag="data", backend=other)
+        ev4 = ck.evaluator()
+        out4 = ck.attempt("R3", f_coh.where, f"coherent_dedispersion(z, DM, chirp=<{other} array>) " + tag, "evaluates with a chirp held on the other back end",
+                          lambda: ev4.call(f_coh, [z, dm], dict(kw, chirp=cother)), ev=ev4, allowed_guards=[])
+        if out4 is not None and out3 is not None and isinstance(out4.attrs.get("_data"), Num) and isinstance(out3.attrs.get("_data"), Num):
+            ck.eq("R3", f_coh.where, f"supplied chirp on the other back end ({other}) " + tag, "same data term as with a chirp on the signal's own back end",
+                  out4.attrs["_data"], out3.attrs["_data"])
         if out is None:
             continue
         d = out.attrs["_data"]
